@@ -126,8 +126,11 @@ static void run_case(const std::string& cid, Toks& t) {
             else if (op == "S") { int maxit = t.next_int(); int it = ml->solve(x, b, maxit);
                 std::ostringstream s; s << k << " " << it; emit0(cid, "ITER", s.str());
                 emit0(cid, "RES", ks.str() + " " + nums_str(ml->residuals, std::min((int)ml->residuals.size(), it + 1))); }
-            else if (op == "SI") { int maxit = t.next_int(); int it = ml->solve(x, b, maxit);
+            else if (op == "SI" || op == "SN") { int maxit = t.next_int();
+                bool keep = ml->store_residuals; if (op == "SN") ml->store_residuals = false;       // SN: solve without a residual history
+                int it = ml->solve(x, b, maxit); ml->store_residuals = keep;
                 std::ostringstream s; s << k << " " << it; emit0(cid, "ITER", s.str());
+                if (op == "SN") emit0(cid, "RES", ks.str()); else
                 emit0(cid, "RES", ks.str() + " " + nums_str(ml->residuals, std::min((int)ml->residuals.size(), it + 1)));
                 Vector y(lit.nr); for (int i = 0; i < lit.nr; i++) y[i] = vecs[xi][i];
                 for (int q = 1; q <= it; q++) { ml->cycle(y, b, 0); std::ostringstream qs; qs << "@0 " << k << " " << q << " ";
@@ -202,8 +205,11 @@ static void run_case(const std::string& cid, Toks& t) {
         else if (op == "S") { ml->max_iterations = t.next_int(); int it = ml->solve(x, b);
             std::ostringstream s; s << k << " " << it; emit0(cid, "ITER", s.str());
             emit0(cid, "RES", ks.str() + " " + nums_str(ml->residuals, std::min((int)ml->residuals.size(), it + 1))); }
-        else if (op == "SI") { ml->max_iterations = t.next_int(); int it = ml->solve(x, b);
+        else if (op == "SI" || op == "SN") { ml->max_iterations = t.next_int();
+            bool keep = ml->store_residuals; if (op == "SN") ml->store_residuals = false;
+            int it = ml->solve(x, b); ml->store_residuals = keep;
             std::ostringstream s; s << k << " " << it; emit0(cid, "ITER", s.str());
+            if (op == "SN") emit0(cid, "RES", ks.str()); else
             emit0(cid, "RES", ks.str() + " " + nums_str(ml->residuals, std::min((int)ml->residuals.size(), it + 1)));
             ParVector y(lit.nr, nloc); fill_parvec(y, first, vecs[xi]);
             for (int q = 1; q <= it; q++) { ml->cycle(y, b); std::ostringstream qs; qs << k << " " << q << " ";
